@@ -1,5 +1,6 @@
 import Hgxv.Proofs.C13
 import Hgxv.Proofs.C13Relabel
+import Hgxv.Proofs.C13Ext
 /-! # C13 — configuration models preserve every node's degree and every hyperedge size
 
 Theorems about the model `Hgxv/Model/C13.lean` of `generation/configuration_model.py`
@@ -325,3 +326,183 @@ example : configurationModel .edge true none 1 [[1, 5], [2, 3]] [.idx 0 1, .coin
 example : directedCM [([3, 13], [23]), ([23], [33, 43])]
     ([0, 1, 1, 0] ++ List.replicate 38 0 ++ [1, 0, 0, 0] ++ List.replicate 38 1)
     = .ok [([3, 23], [33]), ([13], [23, 43])] := rfl
+
+/-! ## Extension round: the entry point, the returned object, the accounting of the draws
+
+`Model/C13Ext.lean`: `cmCall` (argument handling of `configuration_model(..., order=, size=)`), `cmReport` /
+`dcmReport` (the same runs, reporting also the node set of the returned object and how many draws of each kind the
+run consumed).  `Rejected detailed es d` = the drawn pair `d` was thrown away by `while len(f1) != len(f2)`. -/
+
+/-- the entry point: `order` and `size` together are refused for every input, every draw list, before anything is
+drawn; `order=o` is `size=o+1`; without `order` the call is the model `configurationModel` all theorems above speak
+of — so every one of them holds for the public function with either spelling -/
+theorem C13_call (label : Label) (detailed : Bool) (n : Nat) (es : List Edge) (ds : List Draw) :
+    (∀ o s, cmCall label detailed (some o) (some s) n es ds = .error .raise) ∧
+    (∀ o, cmCall label detailed (some o) none n es ds = configurationModel label detailed (some (o + 1)) n es ds) ∧
+    (∀ size, cmCall label detailed none size n es ds = configurationModel label detailed size n es ds) :=
+  ⟨fun _ _ => rfl, fun _ => rfl, fun size => cmCall_none label detailed size n es ds⟩
+
+-- `order=0` reshuffles the singletons (size 1): positions are exchanged, the hyperedge of size 2 is intact
+example : cmCall .edge true (some 0) none 1 [[0], [1], [0, 1]] [.idx 0 1, .coin false] = .ok [[1], [0], [0, 1]] := rfl
+example : cmCall .edge true (some 1) (some 2) 1 [[0, 1], [2, 3]] [] = .error .raise := rfl
+
+/-- the reports are the old models plus bookkeeping: their hyperedge listing is what `cmCall` / `directedCM`
+answer, for every input and draw list, error outcomes included -/
+theorem C13_report_refines :
+    (∀ label detailed order size n es ds,
+      (cmReport label detailed order size n es ds).map (·.edges) = cmCall label detailed order size n es ds) ∧
+    (∀ es ds, (dcmReport es ds).map (·.edges) = directedCM es ds) :=
+  ⟨cmReport_edges, dcmReport_edges⟩
+
+example : cmReport .edge true none none 2 [[0, 1], [2, 3], [0, 2]]
+    [.idx 0 1, .coin true, .coin false, .coin false, .idx 2 0, .coin true, .coin true]
+    = .ok { edges := [[0, 3], [1, 2], [0, 2]], nodes := [0, 1, 2, 3], idx := 2, coins := 4, left := 1 } := rfl
+
+/-- acceptance / rejection accounting of ONE `mh_step`, for every draw list: the step consumes exactly
+(the pairs its proposal loop rejects — each a pair of hyperedges of different sizes, and none at all unless
+`detailed`) ++ (the accepted pair `i, j`, admissible) ++ (coins only, at most `|f1| + |f2|`), and it rewrites
+the listing at the two drawn positions only -/
+theorem C13_step_accounting (detailed : Bool) (es : List Edge) (ds : List Draw) (es' : List Edge)
+    (ds' : List Draw) (h : mhStep detailed es ds = .ok (es', ds')) :
+    ∃ rej i j f1 f2 cs, ds = rej ++ .idx i j :: (cs ++ ds') ∧
+      (∀ d ∈ rej, ∃ a b f g, d = .idx a b ∧ es[a]? = some f ∧ es[b]? = some g ∧ f.length ≠ g.length) ∧
+      (detailed = false → rej = []) ∧
+      es[i]? = some f1 ∧ es[j]? = some f2 ∧ (detailed = true → f1.length = f2.length) ∧
+      (∀ c ∈ cs, isCoin c = true) ∧ cs.length ≤ f1.length + f2.length ∧
+      es'.length = es.length ∧ (∀ k, k ≠ i → k ≠ j → es'[k]? = es[k]?) := by
+  obtain ⟨rej, i, j, f1, f2, cs, g1, g2, e0, hrej, hi, hj, hadm, hcs, hlen, rfl⟩ := mhStep_used _ _ _ _ _ h
+  refine ⟨rej, i, j, f1, f2, cs, e0, fun d hd => (hrej d hd).sizes, ?_, hi, hj, ?_, hcs, hlen, by simp, ?_⟩
+  · intro hd
+    cases rej with
+    | nil => rfl
+    | cons d t =>
+      have := (hrej d List.mem_cons_self).detailed
+      rw [hd] at this
+      cases this
+  · intro hd
+    simpa [admissible, hd] using hadm
+  · intro k hki hkj
+    rw [List.getElem?_set_ne (Ne.symm hkj), List.getElem?_set_ne (Ne.symm hki)]
+
+-- the step of the example above: one rejected pair (sizes 2 and 3), the accepted pair, three coins, one draw left
+example : mhStep true [[0, 1], [2, 3], [0, 2, 4]]
+    [.idx 0 2, .idx 0 1, .coin true, .coin false, .coin false, .coin true]
+    = .ok ([[0, 3], [1, 2], [0, 2, 4]], [.coin true]) := rfl
+
+/-- accounting of the chain, for every step count and every draw list: the consumed draws are a prefix of the
+list; they contain at least `n_steps` index pairs (one accepted pair per step, the surplus are rejections) —
+exactly `n_steps` unless `detailed` — and at most `2 · (largest size)` coins per step -/
+theorem C13_chain_accounting (detailed : Bool) (n : Nat) (es : List Edge) (ds : List Draw) (es' : List Edge)
+    (ds' : List Draw) (h : chain detailed n es ds = .ok (es', ds')) (hnd : ∀ e ∈ es, e.Nodup) :
+    ∃ used, ds = used ++ ds' ∧ n ≤ used.countP isIdx ∧ (detailed = false → used.countP isIdx = n) ∧
+      used.countP isCoin ≤ n * (2 * maxSize es) ∧ used.length = used.countP isIdx + used.countP isCoin := by
+  obtain ⟨used, a, b, c, d⟩ := chain_used _ _ _ _ _ _ h hnd
+  exact ⟨used, a, b, c, d, length_eq_idx_add_coin used⟩
+
+/-- accounting of a whole call (plain, `size=`, `order=`): calls of `randint` + calls of `rand` + unused draws
+= the draw list; `n_steps ≤` calls of `randint`, with equality unless `detailed`; the coins are bounded -/
+theorem C13_report_accounting (label : Label) (detailed : Bool) (order size : Option Nat) (n : Nat)
+    (es : List Edge) (ds : List Draw) (r : Report) (h : cmReport label detailed order size n es ds = .ok r)
+    (hnd : ∀ e ∈ es, e.Nodup) :
+    r.idx + r.coins + r.left = ds.length ∧ n ≤ r.idx ∧ (detailed = false → r.idx = n) ∧
+      r.coins ≤ n * (2 * maxSize es) :=
+  cmReport_acct label detailed order size n es ds r h hnd
+
+-- one rejection: 3 calls of randint for 2 steps
+example : cmReport .stub true none (some 2) 2 [[0, 1], [2, 3], [0, 2, 4]]
+    [.idx 0 1, .coin true, .coin false, .coin false, .idx 1 1]
+    = .ok { edges := [[0, 3], [1, 2], [0, 2, 4]], nodes := [0, 1, 2, 3, 4], idx := 2, coins := 3, left := 0 } := rfl
+example : cmReport .stub true none none 1 [[0, 1], [2, 3], [0, 2, 4]]
+    [.idx 0 2, .idx 0 1, .coin true, .coin false, .coin false]
+    = .ok { edges := [[0, 3], [1, 2], [0, 2, 4]], nodes := [0, 1, 2, 3, 4], idx := 2, coins := 3, left := 0 } := rfl
+
+/-- node set and sizes of the returned listing, for every call (plain / `size=`), every step count, every draw
+list, whether or not hyperedges were merged: a node occurs in a returned hyperedge iff it occurs in a hyperedge of
+the input; no size is more frequent than in the input; hence no empty (degenerate) hyperedge appears unless the
+input has one.  (`hdist`: the listing of a `Hypergraph` has distinct members; needed for `size=` only.) -/
+theorem C13_nodes_and_sizes (label : Label) (detailed : Bool) (size : Option Nat) (n : Nat) (es : List Edge)
+    (ds : List Draw) (out : List Edge) (h : configurationModel label detailed size n es ds = .ok out)
+    (hdist : size.isSome = true → es.Nodup) (hnd : ∀ e ∈ es, e.Nodup) :
+    (∀ x, x ∈ stubs out ↔ x ∈ stubs es) ∧ (∀ x, 0 < deg out x ↔ 0 < deg es x) ∧
+      (∀ k, (sizes out).count k ≤ (sizes es).count k) ∧
+      ((∀ e ∈ es, e ≠ []) → ∀ e ∈ out, e ≠ []) := by
+  have K := configurationModel_kept label detailed size n es ds out h hdist hnd
+  refine ⟨K.nodes, fun x => ?_, K.sizes_le, ?_⟩
+  · rw [deg_pos_iff, deg_pos_iff]; exact K.nodes x
+  · intro hne e he hnil
+    subst hnil
+    have h0 : 0 < (sizes out).count 0 := List.count_pos_iff.mpr (List.mem_map.mpr ⟨[], he, rfl⟩)
+    have h1 := K.sizes_le 0
+    obtain ⟨e0, hm, hl⟩ := List.mem_map.mp (List.count_pos_iff.mp (Nat.lt_of_lt_of_le h0 h1))
+    exact hne e0 hm (List.eq_nil_of_length_eq_zero hl)
+
+/-- the node set of the returned OBJECT (`get_nodes()`): strictly increasing, and exactly the nodes of the
+input that lie in some hyperedge — isolated nodes of the input are not carried over -/
+theorem C13_report_nodes (label : Label) (detailed : Bool) (size : Option Nat) (n : Nat)
+    (es : List Edge) (ds : List Draw) (r : Report) (h : cmReport label detailed none size n es ds = .ok r)
+    (hdist : size.isSome = true → es.Nodup) (hnd : ∀ e ∈ es, e.Nodup) :
+    r.nodes.Pairwise (· < ·) ∧ ∀ x, x ∈ r.nodes ↔ 0 < deg es x := by
+  have he := cmReport_edges label detailed none size n es ds
+  rw [h, cmCall_none] at he
+  have K := configurationModel_kept label detailed size n es ds r.edges he.symm hdist hnd
+  obtain ⟨_, _, _, _, _, _, hn, _⟩ := cmReport_ok _ _ _ _ _ _ _ _ h
+  rw [hn]
+  exact ⟨nodesOf_sorted _, fun x => by rw [mem_nodesOf, deg_pos_iff]; exact K.nodes x⟩
+
+/-- `n_steps = 0`: nothing is drawn, nothing can fail (also when no hyperedge has the requested size), and the
+call returns the hyperedges of the input — the listing itself for the plain call -/
+theorem C13_zero_steps (label : Label) (detailed : Bool) (size : Option Nat) (es : List Edge) (ds : List Draw)
+    (hdist : es.Nodup) (hs : ∀ e ∈ es, e.Pairwise (· < ·)) :
+    ∃ out, configurationModel label detailed size 0 es ds = .ok out ∧ out.Perm es ∧ (size = none → out = es) :=
+  zero_steps label detailed size es ds hdist hs
+
+example : configurationModel .edge true (some 5) 0 [[0, 1], [1, 2, 3]] [] = .ok [[0, 1], [1, 2, 3]] := rfl
+example : configurationModel .edge true (some 3) 0 [[0, 1], [1, 2, 3]] [.coin true] = .ok [[1, 2, 3], [0, 1]] := rfl
+
+/-! ### directed -/
+
+/-- accounting of the swap loops: an iteration consumes two draws and changes nothing when `id1 == id2`, four
+otherwise; a loop of `n` iterations consumes a prefix of between `2n` and `4n` draws -/
+theorem C13_directed_accounting (tgt : Bool) :
+    (∀ es ds es' ds', swapStep tgt es ds = .ok (es', ds') →
+      (∃ a, ds = a :: a :: ds' ∧ es' = es) ∨ (∃ a b c d, a ≠ b ∧ ds = a :: b :: c :: d :: ds')) ∧
+    (∀ n es ds es' ds', swapLoop tgt n es ds = .ok (es', ds') →
+      ∃ used, ds = used ++ ds' ∧ 2 * n ≤ used.length ∧ used.length ≤ 4 * n) :=
+  ⟨swapStep_used tgt, swapLoop_used tgt⟩
+
+/-- accounting of a whole directed call with `m` hyperedges: each loop (10·m iterations) consumes between `20 m`
+and `40 m` draws, and source draws + target draws + unused draws = the draw list -/
+theorem C13_directed_report_accounting (es : List DEdge) (ds : List Nat) (r : DReport)
+    (h : dcmReport es ds = .ok r) :
+    r.usedSrc + r.usedTgt + r.left = ds.length ∧
+      20 * es.length ≤ r.usedSrc ∧ r.usedSrc ≤ 40 * es.length ∧
+      20 * es.length ≤ r.usedTgt ∧ r.usedTgt ≤ 40 * es.length :=
+  dcmReport_acct es ds r h
+
+example : dcmReport [([0, 1], [2]), ([2], [3, 4])]
+    ([0, 1, 1, 0] ++ List.replicate 38 0 ++ [1, 0, 0, 0] ++ List.replicate 38 1 ++ [7])
+    = .ok { edges := [([0, 2], [3]), ([1], [2, 4])], nodes := [0, 1, 2, 3, 4], usedSrc := 42, usedTgt := 42,
+            left := 1 } := rfl
+
+/-- node sets and shapes of the returned directed listing, for every draw list, merged or not: the set of nodes
+that are a source (a target) of some hyperedge is unchanged, no (source size, target size) shape is more frequent
+than in the input, and the node set of the returned object is strictly increasing = sources ∪ targets of the input -/
+theorem C13_directed_nodes_and_shapes (es : List DEdge) (ds : List Nat) (r : DReport)
+    (h : dcmReport es ds = .ok r) (hnd : ∀ e ∈ es, e.1.Nodup ∧ e.2.Nodup) :
+    (∀ x, x ∈ srcStubs r.edges ↔ x ∈ srcStubs es) ∧ (∀ x, x ∈ tgtStubs r.edges ↔ x ∈ tgtStubs es) ∧
+      (∀ x, 0 < outDeg r.edges x ↔ 0 < outDeg es x) ∧ (∀ x, 0 < inDeg r.edges x ↔ 0 < inDeg es x) ∧
+      (∀ p, (shapes r.edges).count p ≤ (shapes es).count p) ∧
+      r.nodes.Pairwise (· < ·) ∧ (∀ x, x ∈ r.nodes ↔ x ∈ srcStubs es ∨ x ∈ tgtStubs es) := by
+  have he := dcmReport_edges es ds
+  rw [h] at he
+  have K := directedCM_kept es ds r.edges he.symm hnd
+  obtain ⟨_, _, _, _, _, _, _, hn, _⟩ := dcmReport_ok _ _ _ h
+  have ho : ∀ (l : List DEdge) x, 0 < outDeg l x ↔ x ∈ srcStubs l := by
+    intro l x; unfold outDeg; rw [List.countP_pos_iff, mem_srcStubs]; simp
+  have hi : ∀ (l : List DEdge) x, 0 < inDeg l x ↔ x ∈ tgtStubs l := by
+    intro l x; unfold inDeg; rw [List.countP_pos_iff, mem_tgtStubs]; simp
+  refine ⟨K.src, K.tgt, fun x => ?_, fun x => ?_, K.shapes_le, ?_, fun x => ?_⟩
+  · rw [ho, ho]; exact K.src x
+  · rw [hi, hi]; exact K.tgt x
+  · rw [hn]; exact dnodesOf_sorted _
+  · rw [hn, mem_dnodesOf, K.src x, K.tgt x]
